@@ -1105,6 +1105,17 @@ fn dump_crate<'tcx>(tcx: TyCtxt<'tcx>) -> String {
             o.push(("vis", s(format!("{:?}", tcx.visibility(did)))));
             let sig = tcx.fn_sig(did).instantiate_identity().skip_norm_wip();
             o.push(("sig", s(with_crate_prefix!(with_no_visible_paths!(with_no_trimmed_paths!(format!("{}", sig)))))));
+            // names of the type / const parameters (parents first, lifetimes left out): the order in which a call
+            // site's `path::<..>` lists its arguments
+            let g = tcx.generics_of(did);
+            let mut names = Vec::new();
+            for i in 0..g.count() {
+                let p = g.param_at(i, tcx);
+                if !matches!(p.kind, rustc_middle::ty::GenericParamDefKind::Lifetime) {
+                    names.push(s(p.name.to_string()));
+                }
+            }
+            o.push(("generics", V::A(names)));
             if let Some(p) = tcx.opt_parent(did) {
                 if matches!(tcx.def_kind(p), DefKind::Impl { .. }) {
                     let st = tcx.type_of(p).instantiate_identity().skip_norm_wip();
